@@ -9,6 +9,7 @@ package sim
 import (
 	"fmt"
 	"hash/fnv"
+	"os"
 	"runtime"
 	"runtime/debug"
 	"sort"
@@ -310,7 +311,12 @@ func (e *Env) EnableParkAll(site string) { e.mu.Lock(); e.parkAll[site] = true; 
 // DisableParkAll stops parking at site (already parked goroutines stay parked).
 func (e *Env) DisableParkAll(site string) { e.mu.Lock(); delete(e.parkAll, site); e.mu.Unlock() }
 
+var debugSites = os.Getenv("VERIF_DEBUG_SITES") != ""
+
 func (e *Env) yieldHook(site string, key uint64) {
+	if debugSites {
+		e.Notef("site %s hit=%d key=%x g=%d", site, e.SiteHits(site), key, goid())
+	}
 	e.mu.Lock()
 	n := e.siteHits[site]
 	e.siteHits[site] = n + 1
